@@ -3,6 +3,7 @@ package lua
 import (
 	"context"
 	"fmt"
+	"math/rand"
 	"os"
 )
 
@@ -177,7 +178,9 @@ type Global struct {
 	// loading is what require puts into package.loaded while a module is
 	// being loaded (and what a failed load leaves there)
 	loading *LUserData
-	verif   verifGlobal
+	// rand is the generator behind math.random, created on first use
+	rand  *rand.Rand
+	verif verifGlobal
 }
 
 type LState struct {
